@@ -438,6 +438,22 @@ def fixed_checks(rep):
             rep.cov["evaluations"] += 1
             if st != "ok" or not np.allclose(np.asarray(dm.common)[:, 0], want):
                 rep.violation({"clause": "dotted_callee_not_looked_up_at_evaluation", "pow_issue": False, "site": "get_function_from_module"}, {"call": text, "step": how, "status": st})
+    # data names take priority over the caller's names at every evaluation: a name that came from the caller at
+    # training time is the column of that name when the new frame has one
+    seen.clear()
+    st, dm = design.build("y ~ 0 + I(x * rate - 1)", df, extra_namespace={"rate": 2.0})
+    rep.cov["evaluations"] += 1
+    if st == "ok":
+        new = pd.DataFrame({"x": np.array([1.0, 2.0, 3.0]), "rate": np.array([0.5, 0.25, 1.0])})
+        try:
+            got = np.asarray(dm.common.evaluate_new_data(new).design_matrix, dtype=float).reshape(-1)
+            want = np.asarray(new["x"] * new["rate"] - 1, dtype=float)
+            if not np.allclose(got, want):
+                rep.violation({"clause": "new_frame_column_not_preferred_to_callers_name", "pow_issue": False, "site": "LazyVariable.eval"}, {"got": got.tolist(), "want": want.tolist()})
+        except Exception as e:  # pylint: disable=broad-except
+            rep.violation({"clause": "new_frame_column_not_preferred_to_callers_name", "pow_issue": False, "site": "LazyVariable.eval"}, {"error": str(e)[:120]})
+    else:
+        rep.violation({"clause": "python_expression_rejected_or_failed", "pow_issue": False, "site": "Call.set_type"}, {"call": "I(x * rate - 1)", "error": str(dm)[:100]})
     # quote style is kept in the name; textual variants are one term, different calls different terms
     for a, b, same in (("g(x,'a')", "g( x , 'a' )", True), ("g(x, 'a')", 'g(x, "a")', False), ("g(x, 1)", "g(x, 1.0)", False), ("g(x, k=1)", "g(x,k = 1)", True)):
         sa, da = design.build("y ~ 0 + " + a, df, extra_namespace=ns)
